@@ -721,6 +721,12 @@ def build_comprehension(engine, ctx, e, gen, it, env, kind):
             ctx.bound_guards = ctx.bound_guards + extra
             try:
                 v = engine.eval(ctx, e.elt, cenv)
+                if isinstance(v, V.PathV):
+                    # a set of pure paths: the (still empty) result takes the element sort of its first element
+                    if result.elem_sort != V.PathSort:
+                        result.term = z3.K(V.PathSort, z3.BoolVal(False))
+                        result.elem_sort = V.PathSort
+                    v = v.term
                 ctx.collector.add(ctx, result, v)
             finally:
                 ctx.bound_guards = saved
